@@ -329,4 +329,13 @@ def replay_file(path):
     return replay.rerun(path)
 
 if __name__ == "__main__":
-    sys.exit(main())
+    try:
+        rc = main()
+    except SystemExit:
+        raise
+    except BaseException as e:   # an internal error of the machinery is never an alarm
+        import traceback
+        traceback.print_exc()
+        print(f"UNDECIDED: internal error of the checker: {e!r}")
+        rc = 2
+    sys.exit(rc)
